@@ -408,6 +408,7 @@ func TestC04(t *testing.T) {
 		}
 		feats := gen.AllFeatures()
 		feats.MixedWrites, feats.StringNumberCompare, feats.NonBoolCond, feats.Unary, feats.TimeBuiltins = true, true, true, true, true
+		feats.IncAsValue = true
 		feats.BoolInArith = true
 		feats.Histograms, feats.HistIncr = true, true
 		live17 := st.IsLive("C04-1")
